@@ -809,4 +809,707 @@ theorem outcome_eq_single {β : Type} (cfg : Cfg) (hE : cfg.emitDuplicates = fal
   intro x hx y hy e
   exact hobs x (hinv.reported x hx).1 y (d y hy) e
 
+/-! ### the process system -/
+
+/-- effect of one complete, well-formed message on the parent (abstract view of `handleRead`): new state, pipe closed -/
+def applyEv (cfg : Cfg) (p : Parent) : Ev → Parent × Bool
+  | .err m =>
+    ({ p with el := (gate cfg p.el m).2, sink := if (gate cfg p.el m).1 then sinkStep cfg p.sink m else p.sink }, false)
+  | .suppr inl s =>
+    (match supprDecode cfg.simp inl (supprEncode s) with
+     | .ok s' => { p with recv := p.recv ++ [s'] }
+     | .error _ => p, false)
+  | .done n => ({ p with result := p.result + n }, true)
+
+theorem supprEncode_ne_nil (s : Suppr) : (supprEncode s).isEmpty = false := by
+  unfold supprEncode
+  cases s.toStr <;> simp
+
+theorem deserialize_good (cfg : Cfg) (m : Msg) (h : (Ev.err m).good cfg = true) :
+    deserialize cfg.simp (serialize m) = .ok m ∧ (serialize m).length < two32 := by
+  simp only [Ev.good, Bool.and_eq_true, decide_eq_true_eq] at h
+  obtain ⟨⟨h1, h2⟩, h3⟩ := h
+  refine ⟨?_, h2⟩
+  have := deserialize_serialize_aux cfg.simp m h1
+  rw [h3] at this
+  exact this
+
+theorem parentRead_frame (cfg : Cfg) (p : Parent) (ev : Ev) (rest : Str) (h : ev.good cfg = true) :
+    parentRead cfg p (ev.frame ++ rest) =
+      if (applyEv cfg p ev).2 then .closed (applyEv cfg p ev).1 else .cont (applyEv cfg p ev).1 rest := by
+  cases ev with
+  | err m =>
+    obtain ⟨hd, hl⟩ := deserialize_good cfg m h
+    simp only [Ev.frame, parentRead, readFrame_frame '2' (serialize m) rest (by decide) hl, ↓reduceIte, hd, applyEv,
+      Bool.false_eq_true]
+  | suppr inl s =>
+    simp only [Ev.good, Bool.and_eq_true, decide_eq_true_eq] at h
+    obtain ⟨hl, hdec⟩ := h
+    cases inl with
+    | true =>
+      simp only [Ev.frame, parentRead, readFrame_frame '3' (supprEncode s) rest (by decide) hl, supprEncode_ne_nil, applyEv]
+      cases hd : supprDecode cfg.simp true (supprEncode s) with
+      | ok s' => simp [hd]
+      | error e => simp [hd] at hdec
+    | false =>
+      simp only [Ev.frame, parentRead, readFrame_frame '4' (supprEncode s) rest (by decide) hl, supprEncode_ne_nil, applyEv]
+      cases hd : supprDecode cfg.simp false (supprEncode s) with
+      | ok s' => simp [hd]
+      | error e => simp [hd] at hdec
+  | done n =>
+    simp only [Ev.good, decide_eq_true_eq] at h
+    have hn : n = 0 ∨ n = 1 := by omega
+    rcases hn with e | e <;> subst e
+    · have h1 : readFrame (Serialize.frame '5' (render 0) ++ rest) = .msg '5' (render 0) rest := readFrame_frame _ _ _ (by decide) (by decide)
+      have h2 : stoi (render 0) = some 0 := by decide
+      simp [Ev.frame, parentRead, h1, h2, applyEv, addResult]
+    · have h1 : readFrame (Serialize.frame '5' (render 1) ++ rest) = .msg '5' (render 1) rest := readFrame_frame _ _ _ (by decide) (by decide)
+      have h2 : stoi (render 1) = some 1 := by decide
+      simp [Ev.frame, parentRead, h1, h2, applyEv, addResult]
+
+
+/-- a worker whose pipe holds whole events instead of bytes (proof device; `conc` gives the modelled worker back) -/
+structure AChild where
+  todo : List Ev
+  sent : List Ev := []
+  exited : Bool := false
+  isOpen : Bool := true
+  reaped : Bool := false
+
+def AChild.conc (c : AChild) : Child :=
+  { todo := c.todo, pipe := c.sent.flatMap Ev.frame, exited := c.exited, isOpen := c.isOpen, reaped := c.reaped }
+
+structure AState (F : Type) where
+  files : List F
+  children : List AChild := []
+  parent : Parent := {}
+
+def AState.conc (a : AState F) : PState F :=
+  { files := a.files, children := a.children.map AChild.conc, parent := a.parent, dead := false }
+
+def astep (cfg : Cfg) (jobs : Nat) (raws : F → List Raw) (sups : F → List (Bool × Suppr)) (a : AState F) :
+    PLabel → Option (AState F)
+  | .fork =>
+    match a.files with
+    | [] => none
+    | f :: fs =>
+      if (a.children.filter (fun c => !c.reaped)).length < jobs then
+        some { a with files := fs, children := a.children ++ [{ todo := childEvents cfg raws sups f }] }
+      else none
+  | .send i =>
+    match a.children[i]? with
+    | none => none
+    | some c =>
+      match c.todo with
+      | [] => none
+      | ev :: rest => if c.exited then none else some { a with children := a.children.set i { c with todo := rest, sent := c.sent ++ [ev] } }
+  | .exit i =>
+    match a.children[i]? with
+    | none => none
+    | some c => if c.exited || !c.todo.isEmpty then none else some { a with children := a.children.set i { c with exited := true } }
+  | .read i =>
+    match a.children[i]? with
+    | none => none
+    | some c =>
+      if !c.isOpen || (c.sent.isEmpty && !c.exited) then none
+      else match c.sent with
+        | [] => some { a with parent := { a.parent with result := a.parent.result + 1 },
+                              children := a.children.set i { c with sent := [], isOpen := false } }
+        | ev :: rest =>
+          if (applyEv cfg a.parent ev).2 then
+            some { a with parent := (applyEv cfg a.parent ev).1, children := a.children.set i { c with sent := [], isOpen := false } }
+          else
+            some { a with parent := (applyEv cfg a.parent ev).1, children := a.children.set i { c with sent := rest } }
+  | .reap i =>
+    match a.children[i]? with
+    | none => none
+    | some c => if !c.exited || c.reaped then none else some { a with children := a.children.set i { c with reaped := true } }
+
+def AGood (cfg : Cfg) (a : AState F) : Prop := ∀ c ∈ a.children, ∀ ev ∈ c.sent ++ c.todo, ev.good cfg = true
+
+theorem frame_ne_nil (ev : Ev) : ev.frame ≠ [] := by
+  cases ev with
+  | err m => simp [Ev.frame, Serialize.frame]
+  | suppr inl s => cases inl <;> simp [Ev.frame, Serialize.frame]
+  | done n => simp [Ev.frame, Serialize.frame]
+
+theorem pipe_isEmpty (l : List Ev) : (l.flatMap Ev.frame).isEmpty = l.isEmpty := by
+  cases l with
+  | nil => rfl
+  | cons ev r =>
+    have := frame_ne_nil ev
+    cases h : ev.frame with
+    | nil => exact absurd h this
+    | cons x y => simp [h]
+
+theorem conc_set (l : List AChild) (i : Nat) (c : AChild) : (l.map AChild.conc).set i c.conc = (l.set i c).map AChild.conc := by
+  rw [List.map_set]
+
+/-- the byte-level process model, started from (the concretisation of) an abstract state whose events are all
+    well-formed, makes exactly the abstract step -/
+theorem pstep_conc (cfg : Cfg) (jobs : Nat) (raws : F → List Raw) (sups : F → List (Bool × Suppr)) (a : AState F)
+    (hg : AGood cfg a) (l : PLabel) :
+    pstep cfg jobs raws sups a.conc l = (astep cfg jobs raws sups a l).map AState.conc := by
+  cases l with
+  | fork =>
+    simp only [pstep, astep, AState.conc, Bool.false_eq_true, ↓reduceIte]
+    cases a.files with
+    | nil => rfl
+    | cons f fs =>
+      have : (List.filter (fun c => !c.reaped) (List.map AChild.conc a.children)).length =
+          (List.filter (fun c => !c.reaped) a.children).length := by
+        rw [List.filter_map, List.length_map]
+        rfl
+      simp only [this]
+      split <;> simp [AState.conc, AChild.conc]
+  | send i =>
+    simp only [pstep, astep, AState.conc, List.getElem?_map]
+    cases hc : a.children[i]? with
+    | none => rfl
+    | some c =>
+      simp only [Option.map_some, AChild.conc]
+      cases ht : c.todo with
+      | nil => rfl
+      | cons ev rest =>
+        simp only
+        split
+        · rfl
+        · simp only [Option.map_some, AState.conc, Option.some.injEq]
+          congr 1
+          rw [← conc_set]
+          simp [AChild.conc, List.flatMap_append]
+  | exit i =>
+    simp only [pstep, astep, AState.conc, List.getElem?_map]
+    cases hc : a.children[i]? with
+    | none => rfl
+    | some c =>
+      simp only [Option.map_some, AChild.conc]
+      split
+      · rfl
+      · simp only [Option.map_some, AState.conc, Option.some.injEq]
+        congr 1
+        rw [← conc_set]
+        simp [AChild.conc]
+  | reap i =>
+    simp only [pstep, astep, AState.conc, List.getElem?_map, Bool.false_eq_true, ↓reduceIte]
+    cases hc : a.children[i]? with
+    | none => rfl
+    | some c =>
+      simp only [Option.map_some, AChild.conc]
+      split
+      · rfl
+      · simp only [Option.map_some, AState.conc, Option.some.injEq]
+        congr 1
+        rw [← conc_set]
+        simp [AChild.conc]
+  | read i =>
+    simp only [pstep, astep, AState.conc, List.getElem?_map, Bool.false_eq_true, ↓reduceIte]
+    cases hc : a.children[i]? with
+    | none => rfl
+    | some c =>
+      have hmem : c ∈ a.children := List.mem_of_getElem? hc
+      simp only [Option.map_some, AChild.conc, pipe_isEmpty]
+      split
+      · rfl
+      · cases hs : c.sent with
+        | nil =>
+          simp only [List.flatMap_nil, parentRead, readFrame, Option.map_some, AState.conc, Option.some.injEq]
+          congr 1
+          rw [← conc_set]
+          simp [AChild.conc]
+        | cons ev rest =>
+          have hgood : ev.good cfg = true := hg c hmem ev (by simp [hs])
+          simp only [List.flatMap_cons, parentRead_frame cfg a.parent ev _ hgood]
+          cases hcl : (applyEv cfg a.parent ev).2 with
+          | true =>
+            simp only [↓reduceIte, Option.map_some, AState.conc, Option.some.injEq]
+            congr 1
+            rw [← conc_set]
+            simp [AChild.conc]
+          | false =>
+            simp only [Bool.false_eq_true, ↓reduceIte, Option.map_some, AState.conc, Option.some.injEq]
+            congr 1
+            rw [← conc_set]
+            simp [AChild.conc]
+
+
+def errsOf (evs : List Ev) : List Msg := evs.filterMap fun e => match e with | .err m => some m | _ => none
+def doneSum (evs : List Ev) : Nat := (evs.filterMap fun e => match e with | .done n => some n | _ => none).sum
+def AChild.evs (c : AChild) : List Ev := c.sent ++ c.todo
+
+def aRem (cfg : Cfg) (raws : F → List Raw) (a : AState F) : List Msg :=
+  a.files.flatMap (outN cfg raws) ++ a.children.flatMap fun c => errsOf c.evs
+
+/-- shape of a worker: `done` is its last event; once the parent has read it nothing is left -/
+structure ChildOK (c : AChild) : Prop where
+  exited_ok : c.exited = true → c.todo = []
+  open_ok : c.isOpen = true → ∃ pre n, c.evs = pre ++ [Ev.done n] ∧ ∀ e ∈ pre, ∀ k, e ≠ Ev.done k
+  closed_ok : c.isOpen = false → c.sent = [] ∧ c.todo = []
+
+structure AInv (cfg : Cfg) (raws : F → List Raw) (files : List F) (total : Nat) (a : AState F) : Prop where
+  good : AGood cfg a
+  sub : ∀ f ∈ a.files, f ∈ files
+  inv : Inv cfg (forwarded cfg raws files) (aRem cfg raws a) [] a.parent.el a.parent.sink
+  res : a.parent.result + (a.files.map (exN cfg raws)).sum + (a.children.map fun c => doneSum c.evs).sum = total
+  shape : ∀ c ∈ a.children, ChildOK c
+
+theorem errsOf_append (a b : List Ev) : errsOf (a ++ b) = errsOf a ++ errsOf b := by simp [errsOf, List.filterMap_append]
+theorem doneSum_append (a b : List Ev) : doneSum (a ++ b) = doneSum a + doneSum b := by
+  simp [doneSum, List.filterMap_append, List.sum_append]
+
+theorem childEvents_errs (cfg : Cfg) (raws : F → List Raw) (sups : F → List (Bool × Suppr)) (f : F) :
+    errsOf (childEvents cfg raws sups f) = outN cfg raws f := by
+  simp only [childEvents, outN, errsOf, List.filterMap_append, List.filterMap_map]
+  have h1 : ∀ l : List Msg, List.filterMap ((fun e => match e with | Ev.err m => some m | _ => none) ∘ Ev.err) l = l := by
+    intro l; induction l with
+    | nil => rfl
+    | cons x l ih => simp [List.filterMap_cons, ih]
+  have h2 : ∀ l : List (Bool × Suppr), List.filterMap ((fun e => match e with | Ev.err m => some m | _ => none) ∘ fun p => Ev.suppr p.1 p.2) l = [] := by
+    intro l; induction l with
+    | nil => rfl
+    | cons x l ih => simp [List.filterMap_cons, ih]
+  simp [h1, h2]
+
+theorem childEvents_done (cfg : Cfg) (raws : F → List Raw) (sups : F → List (Bool × Suppr)) (f : F) :
+    doneSum (childEvents cfg raws sups f) = exN cfg raws f := by
+  simp only [childEvents, exN, doneSum, List.filterMap_append, List.filterMap_map]
+  have h1 : ∀ l : List Msg, List.filterMap ((fun e => match e with | Ev.done n => some n | _ => none) ∘ Ev.err) l = [] := by
+    intro l; induction l with
+    | nil => rfl
+    | cons x l ih => simp [List.filterMap_cons, ih]
+  have h2 : ∀ l : List (Bool × Suppr), List.filterMap ((fun e => match e with | Ev.done n => some n | _ => none) ∘ fun p => Ev.suppr p.1 p.2) l = [] := by
+    intro l; induction l with
+    | nil => rfl
+    | cons x l ih => simp [List.filterMap_cons, ih]
+  simp [h1, h2]
+
+theorem childEvents_shape (cfg : Cfg) (raws : F → List Raw) (sups : F → List (Bool × Suppr)) (f : F) :
+    ∃ pre n, childEvents cfg raws sups f = pre ++ [Ev.done n] ∧ ∀ e ∈ pre, ∀ k, e ≠ Ev.done k := by
+  refine ⟨_, _, rfl, ?_⟩
+  intro e he k
+  simp only [List.mem_append, List.mem_map] at he
+  rcases he with ⟨m, _, rfl⟩ | ⟨p, _, rfl⟩ <;> simp
+
+theorem Inv.deliver {cfg : Cfg} (hE : cfg.emitDuplicates = false) {All rem rem' : List Msg} {el : List Str} {sink : Sink}
+    (h : Inv cfg All rem [] el sink) (m : Msg) (hm : m ∈ rem)
+    (hr1 : ∀ x ∈ rem, x = m ∨ x ∈ rem') (hr2 : ∀ x ∈ rem', x ∈ rem) :
+    Inv cfg All rem' [] (Exec.gate cfg el m).2 (if (Exec.gate cfg el m).1 then sinkStep cfg sink m else sink) := by
+  have h1 := Inv.gate hE (held' := if (Exec.gate cfg el m).1 then [m] else []) h m hm hr1 hr2 (by
+    intro x
+    cases (Exec.gate cfg el m).1 <;> simp)
+  cases hg : (Exec.gate cfg el m).1 with
+  | false => simpa [hg] using h1
+  | true =>
+    simp only [hg, ↓reduceIte] at h1 ⊢
+    exact Inv.print hE h1 m (by simp) (by intro x hx; simp at hx; exact Or.inl hx) (by intro x hx; cases hx)
+
+theorem flatMap_split {α β : Type} (f : α → List β) (a b : List α) (x : α) (y : β) :
+    y ∈ (a ++ x :: b).flatMap f ↔ y ∈ a.flatMap f ∨ y ∈ f x ∨ y ∈ b.flatMap f := by
+  simp [List.flatMap_append]
+
+theorem astep_inv (cfg : Cfg) (hE : cfg.emitDuplicates = false) (jobs : Nat) (raws : F → List Raw)
+    (sups : F → List (Bool × Suppr)) (files : List F) (total : Nat)
+    (hgood : ∀ f ∈ files, ∀ ev ∈ childEvents cfg raws sups f, ev.good cfg = true)
+    (a a' : AState F) (l : PLabel) (h : AInv cfg raws files total a) (hs : astep cfg jobs raws sups a l = some a') :
+    AInv cfg raws files total a' := by
+  cases l with
+  | fork =>
+    simp only [astep] at hs
+    split at hs
+    · cases hs
+    · rename_i f fs hf
+      split at hs
+      · simp only [Option.some.injEq] at hs
+        subst hs
+        have hfm : f ∈ files := h.sub f (by simp [hf])
+        refine ⟨?_, fun g hg => h.sub g (by simp [hf, hg]), ?_, ?_, ?_⟩
+        · intro c hc ev hev
+          simp only [List.mem_append, List.mem_singleton] at hc
+          rcases hc with hc | hc
+          · exact h.good c hc ev hev
+          · subst hc
+            simp only [List.nil_append] at hev
+            exact hgood f hfm ev hev
+        · apply h.inv.congr (hh := fun _ => Iff.rfl)
+          intro x
+          simp only [aRem, hf, List.flatMap_cons, List.flatMap_append, List.mem_append, List.flatMap_nil, List.append_nil,
+            AChild.evs, List.nil_append, childEvents_errs]
+          constructor
+          · rintro (h1 | h1 | h1)
+            · exact Or.inl (Or.inr h1)
+            · exact Or.inr h1
+            · exact Or.inl (Or.inl h1)
+          · rintro ((h1 | h1) | h1)
+            · exact Or.inr (Or.inr h1)
+            · exact Or.inl h1
+            · exact Or.inr (Or.inl h1)
+        · have := h.res
+          simp only [hf, List.map_cons, List.sum_cons, List.map_append, List.sum_append, List.map_nil, List.sum_nil,
+            AChild.evs, List.nil_append, childEvents_done] at this ⊢
+          omega
+        · intro c hc
+          simp only [List.mem_append, List.mem_singleton] at hc
+          rcases hc with hc | hc
+          · exact h.shape c hc
+          · subst hc
+            refine ⟨(by intro e; cases e), fun _ => ?_, (by intro e; cases e)⟩
+            simpa [AChild.evs] using childEvents_shape cfg raws sups f
+      · cases hs
+  | send i =>
+    simp only [astep] at hs
+    split at hs
+    · cases hs
+    · rename_i c hc
+      obtain ⟨la, lb, hab, hlen⟩ := getElem?_split hc
+      have hcm : c ∈ a.children := List.mem_of_getElem? hc
+      split at hs
+      · cases hs
+      · rename_i ev rest htodo
+        split at hs
+        · cases hs
+        · rename_i hex
+          simp only [Option.some.injEq] at hs
+          subst hs
+          have hevs : ({ c with todo := rest, sent := c.sent ++ [ev] } : AChild).evs = c.evs := by
+            simp [AChild.evs, htodo]
+          refine ⟨?_, h.sub, ?_, ?_, ?_⟩
+          · intro c' hc' e he
+            simp only [hab, ← hlen, set_split, List.mem_append, List.mem_cons] at hc'
+            rcases hc' with hc' | hc' | hc'
+            · exact h.good c' (by simp [hab, hc']) e he
+            · subst hc'
+              have : e ∈ c.sent ++ c.todo := by
+                simp only [List.mem_append, List.append_assoc, List.mem_cons, List.not_mem_nil, or_false] at he
+                simp only [htodo, List.mem_append, List.mem_cons]
+                rcases he with h1 | h1 | h1
+                · exact Or.inl h1
+                · exact Or.inr (Or.inl h1)
+                · exact Or.inr (Or.inr h1)
+              exact h.good c hcm e this
+            · exact h.good c' (by simp [hab, hc']) e he
+          · apply h.inv.congr (hh := fun _ => Iff.rfl)
+            intro x
+            simp only [aRem, hab, ← hlen, set_split, List.flatMap_append, List.flatMap_cons, hevs]
+          · have := h.res
+            simp only [hab, ← hlen, set_split, List.map_append, List.map_cons, hevs] at this ⊢
+            exact this
+          · intro c' hc'
+            simp only [hab, ← hlen, set_split, List.mem_append, List.mem_cons] at hc'
+            rcases hc' with hc' | hc' | hc'
+            · exact h.shape c' (by simp [hab, hc'])
+            · subst hc'
+              obtain ⟨s1, s2, s3⟩ := h.shape c hcm
+              refine ⟨fun e => by simp [hex] at e, ?_, ?_⟩
+              · intro ho
+                rw [hevs]
+                exact s2 ho
+              · intro ho
+                have := (s3 ho).2
+                rw [htodo] at this
+                cases this
+            · exact h.shape c' (by simp [hab, hc'])
+  | exit i =>
+    simp only [astep] at hs
+    split at hs
+    · cases hs
+    · rename_i c hc
+      obtain ⟨la, lb, hab, hlen⟩ := getElem?_split hc
+      have hcm : c ∈ a.children := List.mem_of_getElem? hc
+      split at hs
+      · cases hs
+      · rename_i hcond
+        simp only [Bool.or_eq_true, Bool.not_eq_true', not_or, Bool.not_eq_true, Bool.not_eq_false] at hcond
+        have htodo : c.todo = [] := by simpa using hcond.2
+        simp only [Option.some.injEq] at hs
+        subst hs
+        refine ⟨?_, h.sub, ?_, ?_, ?_⟩
+        · intro c' hc' e he
+          simp only [hab, ← hlen, set_split, List.mem_append, List.mem_cons] at hc'
+          rcases hc' with hc' | hc' | hc'
+          · exact h.good c' (by simp [hab, hc']) e he
+          · subst hc'; exact h.good c hcm e he
+          · exact h.good c' (by simp [hab, hc']) e he
+        · apply h.inv.congr (hh := fun _ => Iff.rfl)
+          intro x
+          simp only [aRem, hab, ← hlen, set_split, List.flatMap_append, List.flatMap_cons, AChild.evs]
+        · have := h.res
+          simp only [hab, ← hlen, set_split, List.map_append, List.map_cons, AChild.evs] at this ⊢
+          exact this
+        · intro c' hc'
+          simp only [hab, ← hlen, set_split, List.mem_append, List.mem_cons] at hc'
+          rcases hc' with hc' | hc' | hc'
+          · exact h.shape c' (by simp [hab, hc'])
+          · subst hc'
+            obtain ⟨s1, s2, s3⟩ := h.shape c hcm
+            exact ⟨fun _ => htodo, s2, s3⟩
+          · exact h.shape c' (by simp [hab, hc'])
+  | reap i =>
+    simp only [astep] at hs
+    split at hs
+    · cases hs
+    · rename_i c hc
+      obtain ⟨la, lb, hab, hlen⟩ := getElem?_split hc
+      have hcm : c ∈ a.children := List.mem_of_getElem? hc
+      split at hs
+      · cases hs
+      · simp only [Option.some.injEq] at hs
+        subst hs
+        refine ⟨?_, h.sub, ?_, ?_, ?_⟩
+        · intro c' hc' e he
+          simp only [hab, ← hlen, set_split, List.mem_append, List.mem_cons] at hc'
+          rcases hc' with hc' | hc' | hc'
+          · exact h.good c' (by simp [hab, hc']) e he
+          · subst hc'; exact h.good c hcm e he
+          · exact h.good c' (by simp [hab, hc']) e he
+        · apply h.inv.congr (hh := fun _ => Iff.rfl)
+          intro x
+          simp only [aRem, hab, ← hlen, set_split, List.flatMap_append, List.flatMap_cons, AChild.evs]
+        · have := h.res
+          simp only [hab, ← hlen, set_split, List.map_append, List.map_cons, AChild.evs] at this ⊢
+          exact this
+        · intro c' hc'
+          simp only [hab, ← hlen, set_split, List.mem_append, List.mem_cons] at hc'
+          rcases hc' with hc' | hc' | hc'
+          · exact h.shape c' (by simp [hab, hc'])
+          · subst hc'; exact ⟨(h.shape c hcm).1, (h.shape c hcm).2, (h.shape c hcm).3⟩
+          · exact h.shape c' (by simp [hab, hc'])
+  | read i =>
+    simp only [astep] at hs
+    split at hs
+    · cases hs
+    · rename_i c hc
+      obtain ⟨la, lb, hab, hlen⟩ := getElem?_split hc
+      have hcm : c ∈ a.children := List.mem_of_getElem? hc
+      obtain ⟨s1, s2, s3⟩ := h.shape c hcm
+      split at hs
+      · cases hs
+      · rename_i hcond
+        simp only [Bool.or_eq_true, Bool.not_eq_true', Bool.and_eq_true, not_or, Bool.not_eq_false, not_and] at hcond
+        obtain ⟨hopen, hne⟩ := hcond
+        obtain ⟨pre, n, hevs, hpre⟩ := s2 hopen
+        split at hs
+        · -- an open pipe at end-of-file cannot occur: `done` has not been read yet
+          rename_i hsent
+          exfalso
+          have hex : c.exited = true := by
+            have := hne (by simp [hsent])
+            simpa using this
+          have := s1 hex
+          simp [AChild.evs, hsent, this] at hevs
+        · rename_i ev rest hsent
+          have hevg : ev.good cfg = true := h.good c hcm ev (by simp [hsent])
+          have hevs' : ev :: (rest ++ c.todo) = pre ++ [Ev.done n] := by
+            rw [← hevs]; simp [AChild.evs, hsent]
+          cases ev with
+          | done k =>
+            -- the end marker: nothing else is left in this worker
+            have hpn : pre = [] := by
+              cases pre with
+              | nil => rfl
+              | cons x pre' =>
+                simp only [List.cons_append, List.cons.injEq] at hevs'
+                exact absurd hevs'.1.symm (hpre x (by simp) k)
+            subst hpn
+            simp only [List.nil_append, List.cons.injEq, Ev.done.injEq, List.append_eq_nil_iff] at hevs'
+            obtain ⟨hkn, hrest, htodo⟩ := hevs'
+            simp only [applyEv, ↓reduceIte, Option.some.injEq] at hs
+            subst hs
+            refine ⟨?_, h.sub, ?_, ?_, ?_⟩
+            · intro c' hc' e he
+              simp only [hab, ← hlen, set_split, List.mem_append, List.mem_cons] at hc'
+              rcases hc' with hc' | hc' | hc'
+              · exact h.good c' (by simp [hab, hc']) e he
+              · subst hc'; simp [htodo] at he
+              · exact h.good c' (by simp [hab, hc']) e he
+            · apply h.inv.congr (hh := fun _ => Iff.rfl)
+              intro x
+              simp only [aRem, hab, ← hlen, set_split, List.flatMap_append, List.flatMap_cons, AChild.evs, hsent, hrest, htodo,
+                errsOf, List.nil_append, List.filterMap_nil, List.append_nil, List.filterMap_cons]
+            · have := h.res
+              simp only [hab, ← hlen, set_split, List.map_append, List.map_cons, AChild.evs, hsent, hrest, htodo, doneSum,
+                List.sum_append, List.sum_cons, List.nil_append, List.filterMap_nil, List.append_nil, List.filterMap_cons,
+                List.sum_nil] at this ⊢
+              omega
+            · intro c' hc'
+              simp only [hab, ← hlen, set_split, List.mem_append, List.mem_cons] at hc'
+              rcases hc' with hc' | hc' | hc'
+              · exact h.shape c' (by simp [hab, hc'])
+              · subst hc'
+                exact ⟨fun _ => htodo, (by intro e; cases e), fun _ => ⟨rfl, htodo⟩⟩
+              · exact h.shape c' (by simp [hab, hc'])
+          | err m =>
+            have hpc : ∃ pre', pre = Ev.err m :: pre' := by
+              cases pre with
+              | nil => simp at hevs'
+              | cons x pre' => simp only [List.cons_append, List.cons.injEq] at hevs'; exact ⟨pre', by rw [hevs'.1]⟩
+            obtain ⟨pre', hp'⟩ := hpc
+            subst hp'
+            simp only [List.cons_append, List.cons.injEq, true_and] at hevs'
+            simp only [applyEv, Bool.false_eq_true, ↓reduceIte, Option.some.injEq] at hs
+            subst hs
+            have hmrem : m ∈ aRem cfg raws a := by
+              simp [aRem, hab, AChild.evs, hsent, errsOf]
+            refine ⟨?_, h.sub, ?_, ?_, ?_⟩
+            · intro c' hc' e he
+              simp only [hab, ← hlen, set_split, List.mem_append, List.mem_cons] at hc'
+              rcases hc' with hc' | hc' | hc'
+              · exact h.good c' (by simp [hab, hc']) e he
+              · subst hc'
+                exact h.good c hcm e (by
+                  simp only [List.mem_append] at he ⊢
+                  rcases he with h1 | h1
+                  · exact Or.inl (by simp [hsent, h1])
+                  · exact Or.inr h1)
+              · exact h.good c' (by simp [hab, hc']) e he
+            · refine Inv.deliver hE h.inv m hmrem ?_ ?_
+              · intro x hx
+                simp only [aRem, hab, ← hlen, set_split, List.mem_append, flatMap_split, AChild.evs, hsent, errsOf,
+                  List.cons_append, List.filterMap_cons, List.mem_cons] at hx ⊢
+                rcases hx with h1 | h1 | (h1 | h1) | h1
+                · exact Or.inr (Or.inl h1)
+                · exact Or.inr (Or.inr (Or.inl h1))
+                · exact Or.inl h1
+                · exact Or.inr (Or.inr (Or.inr (Or.inl h1)))
+                · exact Or.inr (Or.inr (Or.inr (Or.inr h1)))
+              · intro x hx
+                simp only [aRem, hab, ← hlen, set_split, List.mem_append, flatMap_split, AChild.evs, hsent, errsOf,
+                  List.cons_append, List.filterMap_cons, List.mem_cons] at hx ⊢
+                rcases hx with h1 | h1 | h1 | h1
+                · exact Or.inl h1
+                · exact Or.inr (Or.inl h1)
+                · exact Or.inr (Or.inr (Or.inl (Or.inr h1)))
+                · exact Or.inr (Or.inr (Or.inr h1))
+            · have := h.res
+              simp only [hab, ← hlen, set_split, List.map_append, List.map_cons, AChild.evs, hsent, doneSum,
+                List.cons_append, List.filterMap_cons] at this ⊢
+              exact this
+            · intro c' hc'
+              simp only [hab, ← hlen, set_split, List.mem_append, List.mem_cons] at hc'
+              rcases hc' with hc' | hc' | hc'
+              · exact h.shape c' (by simp [hab, hc'])
+              · subst hc'
+                refine ⟨s1, fun _ => ⟨pre', n, by simpa [AChild.evs] using hevs', fun e he => hpre e (by simp [he])⟩, ?_⟩
+                intro ho; rw [hopen] at ho; cases ho
+              · exact h.shape c' (by simp [hab, hc'])
+          | suppr inl sp =>
+            have hpc : ∃ pre', pre = Ev.suppr inl sp :: pre' := by
+              cases pre with
+              | nil => simp at hevs'
+              | cons x pre' => simp only [List.cons_append, List.cons.injEq] at hevs'; exact ⟨pre', by rw [hevs'.1]⟩
+            obtain ⟨pre', hp'⟩ := hpc
+            subst hp'
+            simp only [List.cons_append, List.cons.injEq, true_and] at hevs'
+            cases hd : supprDecode cfg.simp inl (supprEncode sp) with
+            | error e => simp [Ev.good, hd] at hevg
+            | ok sdec =>
+            simp only [applyEv, hd, Bool.false_eq_true, ↓reduceIte, Option.some.injEq] at hs
+            subst hs
+            refine ⟨?_, h.sub, ?_, ?_, ?_⟩
+            · intro c' hc' e he
+              simp only [hab, ← hlen, set_split, List.mem_append, List.mem_cons] at hc'
+              rcases hc' with hc' | hc' | hc'
+              · exact h.good c' (by simp [hab, hc']) e he
+              · subst hc'
+                exact h.good c hcm e (by
+                  simp only [List.mem_append] at he ⊢
+                  rcases he with h1 | h1
+                  · exact Or.inl (by simp [hsent, h1])
+                  · exact Or.inr h1)
+              · exact h.good c' (by simp [hab, hc']) e he
+            · apply h.inv.congr (hh := fun _ => Iff.rfl)
+              intro x
+              simp only [aRem, hab, ← hlen, set_split, List.flatMap_append, List.flatMap_cons, AChild.evs, hsent, errsOf,
+                List.cons_append, List.filterMap_cons]
+            · have := h.res
+              simp only [hab, ← hlen, set_split, List.map_append, List.map_cons, AChild.evs, hsent, doneSum,
+                List.cons_append, List.filterMap_cons] at this ⊢
+              exact this
+            · intro c' hc'
+              simp only [hab, ← hlen, set_split, List.mem_append, List.mem_cons] at hc'
+              rcases hc' with hc' | hc' | hc'
+              · exact h.shape c' (by simp [hab, hc'])
+              · subst hc'
+                refine ⟨s1, fun _ => ⟨pre', n, by simpa [AChild.evs] using hevs', fun e he => hpre e (by simp [he])⟩, ?_⟩
+                intro ho; rw [hopen] at ho; cases ho
+              · exact h.shape c' (by simp [hab, hc'])
+
+def arun (cfg : Cfg) (jobs : Nat) (raws : F → List Raw) (sups : F → List (Bool × Suppr)) :
+    AState F → List PLabel → Option (AState F)
+  | a, [] => some a
+  | a, l :: ls => match astep cfg jobs raws sups a l with
+    | none => none
+    | some a' => arun cfg jobs raws sups a' ls
+
+theorem prun_conc (cfg : Cfg) (hE : cfg.emitDuplicates = false) (jobs : Nat) (raws : F → List Raw)
+    (sups : F → List (Bool × Suppr)) (files : List F) (total : Nat)
+    (hgood : ∀ f ∈ files, ∀ ev ∈ childEvents cfg raws sups f, ev.good cfg = true) :
+    ∀ (σ : List PLabel) (a : AState F), AInv cfg raws files total a →
+      prun cfg jobs raws sups a.conc σ = (arun cfg jobs raws sups a σ).map AState.conc ∧
+      ∀ a', arun cfg jobs raws sups a σ = some a' → AInv cfg raws files total a' := by
+  intro σ
+  induction σ with
+  | nil => intro a h; exact ⟨rfl, fun a' e => by simp [arun] at e; subst e; exact h⟩
+  | cons l σ ih =>
+    intro a h
+    simp only [prun, arun, pstep_conc cfg jobs raws sups a h.good l]
+    cases hs : astep cfg jobs raws sups a l with
+    | none => exact ⟨rfl, fun a' e => by cases e⟩
+    | some a1 =>
+      have h1 := astep_inv cfg hE jobs raws sups files total hgood a a1 l h hs
+      simpa using ih a1 h1
+
+def ainit (files : List F) : AState F := { files := files }
+
+theorem ainit_inv (cfg : Cfg) (raws : F → List Raw) (files : List F) :
+    AInv cfg raws files ((files.map (exN cfg raws)).sum) (ainit files) where
+  good := by intro c hc; cases hc
+  sub := fun _ h => h
+  inv := by
+    apply (Inv.init cfg (forwarded cfg raws files)).congr (hh := fun _ => Iff.rfl)
+    intro x
+    simp [aRem, ainit, forwarded, outN]
+  res := by simp [ainit]
+  shape := by intro c hc; cases hc
+
+theorem childEvents_good (cfg : Cfg) (raws : F → List Raw) (sups : F → List (Bool × Suppr)) (files : List F)
+    (h1 : ∀ m ∈ forwarded cfg raws files, (Ev.err m).good cfg = true)
+    (h2 : ∀ f ∈ files, ∀ p ∈ sups f, (Ev.suppr p.1 p.2).good cfg = true) :
+    ∀ f ∈ files, ∀ ev ∈ childEvents cfg raws sups f, ev.good cfg = true := by
+  intro f hf ev hev
+  simp only [childEvents, List.mem_append, List.mem_map, List.mem_singleton] at hev
+  rcases hev with (⟨m, hm, rfl⟩ | ⟨p, hp, rfl⟩) | rfl
+  · exact h1 m (by simp only [forwarded, List.mem_flatMap]; exact ⟨f, hf, hm⟩)
+  · exact h2 f hf p hp
+  · cases (logRun cfg false {} (raws f)).2 <;> simp [Ev.good]
+
+theorem aterminal_empty (cfg : Cfg) (raws : F → List Raw) (files : List F) (total : Nat) (a : AState F)
+    (h : AInv cfg raws files total a) (ht : a.conc.terminal = true) :
+    aRem cfg raws a = [] ∧ a.parent.result = total := by
+  simp only [PState.terminal, AState.conc, Bool.not_false, Bool.true_and, Bool.and_eq_true, List.isEmpty_iff,
+    List.all_eq_true, List.mem_map, forall_exists_index, and_imp, forall_apply_eq_imp_iff₂, AChild.conc,
+    Bool.not_eq_true'] at ht
+  obtain ⟨hf, hc⟩ := ht
+  have hev : ∀ c ∈ a.children, c.evs = [] := by
+    intro c hcm
+    have := (h.shape c hcm).closed_ok (hc c hcm).1
+    simp [AChild.evs, this.1, this.2]
+  constructor
+  · simp only [aRem, hf, List.flatMap_nil, List.nil_append]
+    apply List.flatMap_eq_nil_iff.2
+    intro c hcm
+    rw [hev c hcm]; rfl
+  · have := h.res
+    have hz : (a.children.map fun c => doneSum c.evs) = a.children.map fun _ => 0 := by
+      apply List.map_congr_left
+      intro c hcm
+      rw [hev c hcm]; rfl
+    rw [hf, hz] at this
+    have hz2 : ∀ l : List AChild, (l.map fun _ => 0).sum = 0 := by
+      intro l; induction l with
+      | nil => rfl
+      | cons x l ih => simp [ih]
+    rw [hz2] at this
+    simpa using this
+
+
 end Cppcheck.Exec
